@@ -194,7 +194,8 @@ CLAIMED = {
              "stream s leaves every other stream's state untouched while a stream with data and window is still served.  On the "
              "HTTP/1 side (model.H11Proto): a connection that is not reused ends marked closed with its reader released, and a "
              "released reader of a closed protocol leaves without consulting the parser again and ignores further input - the "
-             "handler terminates (finding F57, repaired).  Tied to "
+             "handler terminates (findings F57, F64, repaired); closed is final along every run (proofs/Final_proofs.v: any "
+             "state predicate that every field update preserves holds in every state every run reaches).  Tied to "
              "the code by step-by-step differential execution, and by byte-level fuzzing of the real stack (random bytes, mutated "
              "HTTP/1, HTTP/2 and WebSocket sessions, grammar-generated rare HTTP/2 sequences around a victim stream, every input in "
              "random segmentation, both server-loop flavours) judged by independent h11/h2 parsers.",
